@@ -415,8 +415,47 @@ class Interp:
             return
         self.put(y_i, self.requant(x_i, y_i), 0, [x_i])
 
+    def lut16_unary(self, op, fn):
+        """16-bit table operators of the reference (EXP, LOG, SQRT, GELU ...): 513-entry table with midpoint error correction,
+        linear interpolation on the low 7 bits"""
+        x_i, y_i = op.inputs[0], op.outputs[0]
+        xs, xzp = self.scalar_q(x_i)
+        ys, yzp = self.scalar_q(y_i)
+        xs, ys = float(np.float32(xs)), float(np.float32(ys))
+        imin, imax = xs * (-32768 - xzp), xs * (32767 - xzp)
+        omin, omax = ys * (-32768 - yzp), ys * (32767 - yzp)
+        step = (imax - imin) / 512
+        inv = 65536.0 / (omax - omin)
+
+        def rnd(v):
+            return math.floor(abs(v) + 0.5) * (1 if v >= 0 else -1)
+
+        def f(v):
+            with np.errstate(all="ignore"):
+                r = float(fn(np.float64(v)))
+            return r
+
+        lut = []
+        for i in range(512):
+            val, mid, nxt = f(imin + i * step), f(imin + i * step + step / 2), f(imin + (i + 1) * step)
+            sample = rnd(val * inv)
+            interp = rnd((nxt * inv + rnd(val * inv)) / 2)
+            bias = rnd((interp - rnd(mid * inv)) / 2)
+            lut.append(min(max(sample - bias, -32768), 32767))
+        lut.append(min(max(rnd(f(imax) * inv), -32768), 32767))
+        lut = np.array(lut, np.int64)
+        x = self.get(x_i)
+        idx = 256 + (x >> 7)
+        off = x & 0x7F
+        base = lut[idx]
+        slope = lut[idx + 1] - base
+        y = base + ((slope * off + 64) >> 7)
+        self.put(y_i, y, 0, [x_i])
+
     def float_unary(self, op, fn, approx=1):
         x_i, y_i = op.inputs[0], op.outputs[0]
+        if self.m.tensors[x_i].type == "INT16" and op.name.split(":")[0] in ("EXP", "LOG", "SQRT", "GELU"):
+            return self.lut16_unary(op, fn)
         xs, xzp = self.scalar_q(x_i)
         ys, yzp = self.scalar_q(y_i)
         with np.errstate(all="ignore"):
@@ -660,8 +699,11 @@ class Interp:
         xs, xzp = self.scalar_q(x_i)
         ys, yzp = self.scalar_q(op.outputs[0])
         wt = self.m.tensors[w_i]
-        if self.m.tensors[x_i].type != "INT8":
+        xtype = self.m.tensors[x_i].type
+        if xtype not in ("INT8", "UINT8", "INT16"):
             raise Unsupported("transpose conv dtype")
+        if xtype == "INT16" and b_i >= 0 and self.m.tensors[b_i].type != "INT64":
+            raise Unsupported("int16 transpose conv with 32-bit bias")
         N, H, W, C = x.shape
         oc, kh, kw, _ = w.shape
         sh, sw = o["StrideH"], o["StrideW"]
@@ -684,11 +726,16 @@ class Interp:
         if b_i >= 0:
             acc = acc + self.get(b_i).reshape(1, 1, 1, -1)
         wscales = [float(np.float32(s)) for s in wt.scale]
-        reals = [float(np.float64(np.float32(xs)) * np.float64(np.float32(s)) / np.float64(np.float32(ys))) for s in wscales]
+        if xtype == "UINT8":
+            reals = [float(np.float64(np.float32(np.float32(xs) * np.float32(s))) / np.float64(np.float32(ys))) for s in wscales]
+        else:
+            reals = [float(np.float64(np.float32(xs)) * np.float64(np.float32(s)) / np.float64(np.float32(ys))) for s in wscales]
         if len(reals) == 1:
             reals = reals * oc
         ms = [quantize_multiplier(r) for r in reals]
-        y = mbqm(acc, np.array([a for a, _ in ms], np.int64).reshape(1, 1, 1, -1), np.array([b for _, b in ms], np.int64).reshape(1, 1, 1, -1)) + yzp
+        ma = np.array([a for a, _ in ms], np.int64).reshape(1, 1, 1, -1)
+        sa = np.array([b for _, b in ms], np.int64).reshape(1, 1, 1, -1)
+        y = (mbqm64(acc, ma, sa) if xtype == "INT16" else mbqm(acc, ma, sa)) + yzp
         self.put(op.outputs[0], y, 0, [x_i])
 
     # ---------------------------------------------------------------- CPU-only operators of the workload
